@@ -313,6 +313,7 @@ def explore(chk, rng, n, tag):
         impl_ticked = ids_of([m.dump() for m in res["taken"][1:]])
         if res["taken"]:
             impl_ticked = "250" if impl_ticked == "-" else "250," + impl_ticked
+        chk.traces_validated += 1
         if impl_delivered != f.get("delivered") or impl_ticked != f.get("ticked"):
             chk.corr_break("inbound-trace", inp, {"delivered": impl_delivered, "taken": impl_ticked},
                            {"delivered": f.get("delivered"), "taken": f.get("ticked")})
